@@ -19,22 +19,29 @@
      c09_open_region_published   nesting + move: whenever the client's depth is >= 1 (inner unlocks included, whoever
                                  owns the Accessor now) and lock() is not in its entry window, the slot is published
      c09_unlocked_slot_idle      a slot with lock_times = 0 never holds the mark back
-     c09_released_never_blocks_partial   with no release-while-locked so far, a slot whose accessor is unlocked,
-                                 released or never bound is idle (does not hold the mark back)
-     c09_release_while_locked_refuted    the unrestricted statement 'a released Accessor never holds the mark back' is
-                                 FALSE of the code as it is: witness C0,L0,X0 (replayed on the implementation by
-                                 checks/c09.py family rwl -> KNOWN_FINDINGS release-while-locked-holds-mark)
+     c09_released_never_blocks   a slot whose accessor is unlocked (depth 0), released or never bound has
+                                 lock_times = 0 and is idle: it does not hold the mark back (full strength since the
+                                 fix 053c9bd of Epoch::unregister_accessor; before it the statement was refuted by
+                                 C0,L0,X0, see KNOWN_FINDINGS `fixed:` release-while-locked-holds-mark)
+     c09_reused_slot_clean       a slot handed out by create_accessor() (fresh or reused) starts with lock_times = 0, idle
+     c09_lock_times_is_depth     lock_times of a live accessor's slot is exactly the client's nesting depth
      c09_slots_exclusive         model sanity: live accessors never share a slot, an operation in progress belongs to
                                  the handle's owner
      c09_memory_order_obligations, c09_tick_*, c09_idle_is_max    regenerated orders / constants
-   Store-buffer half of the quantifier (PARTIAL): c09_tso_entry_fence_skeleton / c09_tso_without_fence_refuted are
-   about an explicit store-buffer machine for the one-slot skeleton only (EP/EPTsoModel.v, all schedules incl.
-   buffer flushes, one reader, one writer; x86 branch of tick = draining RMW); the composition of that skeleton with
-   the full algorithm (many slots/readers, nesting, allocator) and the non-x86 tick branch are covered only by
-   c09_memory_order_obligations on the regenerated site table, not mechanised. *)
+   Store-buffer half of the quantifier (PARTIAL): two explicit store-buffer machines for the ONE-slot skeleton
+   (reader: store slot; [fence]; load cell  ||  writer: store cell; tick; load slot), all schedules of thread steps
+   and buffer flushes, parameterised by facts computed from the regenerated site tables (entry fence present, after
+   the slot store, seq_cst; x86 tick = seq_cst RMW):
+     c09_tso_entry_fence_skeleton / c09_tso_without_fence_refuted          EP/EPTsoModel.v (also carries versions:
+                                 the reader publishes the version it loaded, the writer compares with its tick value)
+     c09_litmus_epoch_safe, c09_litmus_all_executions, c09_litmus_*_refuted   generic machine WM/TSO.v + WM/Litmus.v,
+                                 lifted by the explorer-completeness theorem TSOProofs.outcomes_sound
+   The composition of the skeleton with the full algorithm (many slots/readers, nesting, allocator) and the non-x86
+   tick branch (relaxed RMW + seq_cst fence) are covered only by c09_memory_order_obligations, not mechanised. *)
 From Coq Require Import ZArith List Bool.
 Require Import Verif.Base.Atomics Verif.Gen.Gen_epoch Verif.Conc.Machine Verif.EP.EPModel Verif.EP.EPBase Verif.EP.EPInvB
                Verif.EP.EPProofs Verif.EP.EPTsoModel Verif.EP.EPTso.
+Require Verif.WM.TSO Verif.WM.Litmus Verif.EP.EPLitmus.
 Import ListNotations.
 Local Open Scope Z_scope.
 
@@ -72,18 +79,30 @@ Theorem c09_unlocked_slot_idle : forall tlm e owners anext0 afree0 vsize0 progs 
 Proof. exact ep_unlocked_slot_idle. Qed.
 Print Assumptions c09_unlocked_slot_idle.
 
-Theorem c09_released_never_blocks_partial : forall tlm e owners anext0 afree0 vsize0 progs s i, wf_init anext0 afree0 ->
-  Reach tlm e owners anext0 afree0 vsize0 progs s -> no_overflow s -> rwl s = false ->
+Theorem c09_released_never_blocks : forall tlm e owners anext0 afree0 vsize0 progs s i, wf_init anext0 afree0 ->
+  Reach tlm e owners anext0 afree0 vsize0 progs s -> no_overflow s ->
   (forall h, hidx (get_h s h) = Some i -> hdepth (get_h s h) = 0) ->
-  ver (get_slot s i) = SLOT_IDLE.
-Proof. exact ep_released_never_blocks_partial. Qed.
-Print Assumptions c09_released_never_blocks_partial.
+  lt (get_slot s i) = 0 /\ ver (get_slot s i) = SLOT_IDLE.
+Proof. exact ep_released_never_blocks. Qed.
+Print Assumptions c09_released_never_blocks.
 
-Theorem c09_release_while_locked_refuted :
+Theorem c09_reused_slot_clean : forall tlm e owners anext0 afree0 vsize0 progs s t th h i, wf_init anext0 afree0 ->
+  Reach tlm e owners anext0 afree0 vsize0 progs s -> no_overflow s ->
+  thr s t th -> tpc th = CrEnsure h i -> lt (get_slot s i) = 0 /\ ver (get_slot s i) = SLOT_IDLE.
+Proof. exact ep_reused_slot_clean. Qed.
+Print Assumptions c09_reused_slot_clean.
+
+Theorem c09_lock_times_is_depth : forall tlm e owners anext0 afree0 vsize0 progs s h i, wf_init anext0 afree0 ->
+  Reach tlm e owners anext0 afree0 vsize0 progs s -> no_overflow s ->
+  hidx (get_h s h) = Some i -> lt (get_slot s i) = hdepth (get_h s h).
+Proof. exact ep_lock_times_is_depth. Qed.
+Print Assumptions c09_lock_times_is_depth.
+
+(* non-vacuity of the release-while-locked case: after C0,L0,X0 everything is released and slot 0 is idle again *)
+Example c09_release_while_locked_example :
   exists s, Reach false 0 [0%nat] 0 [] 0 [[OCreate 0; OLock 0; ORelease 0]] s /\ all_done s = true /\
-            (forall h, hidx (get_h s h) = None) /\ ver (get_slot s 0) <> SLOT_IDLE /\ rwl s = true.
-Proof. exact ep_release_while_locked_refuted. Qed.
-Print Assumptions c09_release_while_locked_refuted.
+            (forall h, hidx (get_h s h) = None) /\ ver (get_slot s 0) = SLOT_IDLE /\ lt (get_slot s 0) = 0 /\ afree s = [0%nat].
+Proof. exact ep_release_while_locked_example. Qed.
 
 Theorem c09_slots_exclusive : forall tlm e owners anext0 afree0 vsize0 progs s, wf_init anext0 afree0 ->
   Reach tlm e owners anext0 afree0 vsize0 progs s ->
@@ -94,7 +113,8 @@ Proof. exact ep_slots_exclusive. Qed.
 Print Assumptions c09_slots_exclusive.
 
 (* the memory orders the argument relies on are the ones in the source (regenerated site tables): entry = store THEN
-   seq_cst fence, tick = seq_cst RMW / relaxed RMW + seq_cst fence, scan = acquire loads, exit = release store *)
+   seq_cst fence, tick = seq_cst RMW / relaxed RMW + seq_cst fence, scan = acquire loads, exit = release store,
+   release() of a locked accessor = release store *)
 Theorem c09_memory_order_obligations : orders_ok = true.
 Proof. exact ep_orders_ok. Qed.
 Print Assumptions c09_memory_order_obligations.
@@ -118,6 +138,30 @@ Proof. exact tso_nofence_refuted. Qed.
 Print Assumptions c09_tso_without_fence_refuted.
 Example c09_tso_finishes : exists sch, let s := run tso (tso_step entry_fence) tso_init sch in pc_r s = 4%nat /\ pc_w s = 3%nat.
 Proof. exact tso_fence_finishes. Qed.
+
+(* the same skeleton on the generic store-buffer machine WM/TSO.v (WM/Litmus.v epoch_reader / epoch_writer), with
+   entry_fence and tick_seq_cst computed from the regenerated site tables sites_lock / sites_tick: the explorer finds
+   no bad outcome, and by its completeness (TSOProofs.outcomes_sound) every terminated execution under any schedule
+   of thread steps and buffer flushes is not bad; without the entry fence, or with the tick weakened to a plain
+   store, a bad terminated execution exists *)
+Theorem c09_litmus_epoch_safe : Verif.WM.Litmus.epoch_safe entry_fence Verif.EP.EPLitmus.tick_seq_cst = true.
+Proof. exact Verif.EP.EPLitmus.litmus_epoch_safe. Qed.
+Print Assumptions c09_litmus_epoch_safe.
+Theorem c09_litmus_all_executions : forall sch,
+  Verif.WM.TSO.final (Verif.EP.EPLitmus.litmus_state entry_fence Verif.EP.EPLitmus.tick_seq_cst sch) = true ->
+  Verif.WM.Litmus.epoch_bad (Verif.WM.TSO.result (Verif.EP.EPLitmus.litmus_state entry_fence Verif.EP.EPLitmus.tick_seq_cst sch)) = false.
+Proof. exact Verif.EP.EPLitmus.litmus_all_executions. Qed.
+Print Assumptions c09_litmus_all_executions.
+Theorem c09_litmus_no_entry_fence_refuted :
+  Verif.WM.Litmus.epoch_safe false true = false /\
+  exists sch, Verif.WM.TSO.final (Verif.EP.EPLitmus.litmus_state false true sch) = true /\
+              Verif.WM.Litmus.epoch_bad (Verif.WM.TSO.result (Verif.EP.EPLitmus.litmus_state false true sch)) = true.
+Proof. exact Verif.EP.EPLitmus.litmus_no_entry_fence_refuted. Qed.
+Theorem c09_litmus_tick_relaxed_refuted :
+  Verif.WM.Litmus.epoch_safe true false = false /\
+  exists sch, Verif.WM.TSO.final (Verif.EP.EPLitmus.litmus_state true false sch) = true /\
+              Verif.WM.Litmus.epoch_bad (Verif.WM.TSO.result (Verif.EP.EPLitmus.litmus_state true false sch)) = true.
+Proof. exact Verif.EP.EPLitmus.litmus_tick_relaxed_refuted. Qed.
 
 (* non-vacuity: a well-formed initial allocator; a reachable state with a reader holding object 0 inside its region
    while a collector that retired (0, tick 1) is scanning *)
